@@ -65,6 +65,25 @@ CLAIMED = {
         "on meshes up to ~60 faces; all validated by TLC (Trace_C07).",
    note="Clip scenarios are generated (not exhaustive); exact lattice geometry; valid 2-D meshes.",
    ref="5 C07"),
+ "C08": dict(
+   text="TLC checks, for every non-empty face selection of a 3x3 grid with float / attr-fill / unmaskable / partial / gridless "
+        "variables and over histories MakeMask ; (SaveMask ; LoadMask)? ; Apply(o1|o2), that the operational apply (crop to the "
+        "mask's bounding range, blank unselected cells of maskable variables) satisfies SelectedKept, UnselectedBlank, "
+        "UnmaskableCroppedOnly, NonSpatialUntouched, NothingLeaks, CropIsTight and that a reloaded mask is the same mask; real "
+        "histories (make mask, apply, save + reopen, save mask to netCDF, reload, apply to a second dataset with shifted data, "
+        "one-step clip) on every convention with every fill kind on every grid kind are executed with a real work_dir and the "
+        "fully loaded results validated by TLC, exactly (ValuesExact) and declaratively (SelectedKept, UnselectedBlank, ...).",
+   note="Values are tags; a declared fill or NaN reads as MISSING; an empty selection may be refused.",
+   ref="5 C08"),
+ "C09": dict(
+   text="TLC checks for every non-empty face selection of a lattice mesh that the re-indexed connectivity tables again form a "
+        "consistent topology with entries in range (ClippedMeshConsistent, EntriesInRange); the same real histories as C08 are "
+        "validated by TLC for: same convention after clip and after save + reopen, every kept cell has exactly its original "
+        "polygon and no new polygon appears (explicit geometry), every supplied connectivity variable present, re-indexed as "
+        "specified and mutually consistent, start_index / integer type / dimension order kept in the written file, and "
+        "select_variables leaving every polygon identical.",
+   note="Derived (not stored) CF bounds are outside the geometry clause; edge tables need edge-node connectivity to have a defined numbering; plain ArakawaC is re-bound by hand.",
+   ref="5 C09"),
  "C10": dict(
    text="TLC checks for every mesh of the lattice family (2x2 squares quick, 3x2 thorough: quad / two triangles either diagonal / "
         "absent) that the operational derivations of edge-node, face-edge, edge-face and face-face satisfy the consistency "
